@@ -452,6 +452,66 @@ func genC15Case(rng *rand.Rand) C15Case {
 	return c
 }
 
+// ---- a user database with two names for one id (child processes in a private mount namespace) -----------------
+
+// c15AliasDB: the sandbox's user database maps ids and names one to one, and on such a database a cache that learns the
+// wrong direction still answers right. A child process is therefore run in a private mount namespace (unshare -m) in
+// which /etc/passwd and /etc/group are copies with alias accounts added (two names for uid 61001, for gid 61002, and a
+// second name for root). The event with the numeric id is resolved alone in one child, and after events that mention
+// the aliases by name in another; the two answers must be the same. Returns a clause, or a note when the namespace
+// cannot be made.
+func c15AliasDB(ctx *Ctx) (clause, note string, pair [2]string) {
+	h := filepath.Join(ctx.Verif, "harness")
+	bin := filepath.Join(ctx.Verif, ".work", "bin", "c15alias")
+	args := []string{"build"}
+	if repo := os.Getenv("VERIF_REPO"); repo != "" && repo != "/repo" {
+		args = append(args, "-modfile="+filepath.Join(ctx.Verif, ".work", "alt.mod"))
+	}
+	args = append(args, "-tags", "verif", "-o", bin, "./cmd/c15alias")
+	cmd := exec.Command("go", args...)
+	cmd.Dir = h
+	if out, err := cmd.CombinedOutput(); err != nil {
+		return "", fmt.Sprintf("alias-database child cannot be built: %v: %s", err, lastLine(string(out))), pair
+	}
+	dir := filepath.Join(ctx.Verif, ".work", "aliasdb")
+	os.MkdirAll(dir, 0o755)
+	pw, _ := os.ReadFile("/etc/passwd")
+	gr, _ := os.ReadFile("/etc/group")
+	pw = append(append([]byte{}, pw...), []byte("deploy:x:61001:61002::/:/bin/sh\ndeploy-admin:x:61001:61002::/:/bin/sh\ntoor:x:0:0::/root:/bin/sh\n")...)
+	gr = append(append([]byte{}, gr...), []byte("ops:x:61002:\nops-oncall:x:61002:\n")...)
+	os.WriteFile(filepath.Join(dir, "passwd"), pw, 0o644)
+	os.WriteFile(filepath.Join(dir, "group"), gr, 0o644)
+	target := "type=SYSCALL msg=audit(1500000000.100:9): arch=c000003e syscall=2 success=yes exit=3 a0=1 items=0 ppid=1 pid=2 auid=61001 uid=61001 gid=61002 euid=0 suid=0 fsuid=0 egid=61002 sgid=0 fsgid=0 tty=pts0 ses=1 comm=\"cat\" exe=\"/bin/cat\" key=(null)"
+	before := []string{
+		"type=USER_AUTH msg=audit(1500000000.001:1): pid=1 uid=0 auid=0 ses=1 msg='op=PAM:authentication acct=\"deploy-admin\" exe=\"/usr/sbin/sshd\" hostname=h addr=10.0.0.1 terminal=ssh res=success'",
+		"type=USER_CHAUTHTOK msg=audit(1500000000.002:2): pid=1 uid=0 auid=0 ses=1 msg='op=changing-password acct=\"toor\" exe=\"/usr/bin/passwd\" hostname=h addr=? terminal=pts/0 res=success'",
+		"type=GRP_MGMT msg=audit(1500000000.003:3): pid=1 uid=0 auid=0 ses=1 msg='op=modify-group grp=\"ops-oncall\" acct=\"deploy-admin\" exe=\"/usr/sbin/usermod\" hostname=h addr=? terminal=pts/0 res=success'",
+		"type=SYSCALL msg=audit(1500000000.004:4): arch=c000003e syscall=2 success=yes exit=3 a0=1 items=0 ppid=1 pid=2 auid=0 uid=0 gid=0 euid=0 suid=0 fsuid=0 egid=0 sgid=0 fsgid=0 tty=pts0 ses=1 comm=\"cat\" exe=\"/bin/cat\" key=(null)",
+	}
+	run := func(lines []string) (string, error) {
+		script := fmt.Sprintf("mount --bind %s /etc/passwd && mount --bind %s /etc/group && exec \"$0\" \"$@\"", filepath.Join(dir, "passwd"), filepath.Join(dir, "group"))
+		c := exec.Command("unshare", append([]string{"-m", "sh", "-c", script, bin}, lines...)...)
+		out, err := c.CombinedOutput()
+		return strings.TrimSpace(string(out)), err
+	}
+	alone, err := run([]string{target})
+	if err != nil {
+		return "", "alias-database child cannot run in a private mount namespace (" + err.Error() + "): " + lastLine(alone), pair
+	}
+	if !strings.Contains(alone, "deploy") {
+		return "", "alias-database child does not see the alias accounts (the resolver reads another database): " + lastLine(alone), pair
+	}
+	after, err := run(append(append([]string{}, before...), target))
+	if err != nil {
+		return "", "alias-database child failed on the second run: " + lastLine(after), pair
+	}
+	pair = [2]string{alone, after}
+	if alone != after {
+		return "isolation: with a user database that has two names for one id, an event resolves differently after other events (which name the aliases) have been resolved than it does alone", "", pair
+	}
+	return "", "", pair
+}
+
 // ---- the concurrent soak (child process, race detector when available) ------------------------
 
 func c15RaceBinary(ctx *Ctx) (path string, race bool, err error) {
@@ -779,6 +839,18 @@ func c15Family(ctx *Ctx) error {
 			Ops:     []C15Op{{K: "co", G: 0}, {K: "res", E: 0}, {K: "co", G: 1}, {K: "res", E: 1}, {K: "co", G: 2}, {K: "res", E: 2}, {K: "co", G: 3}, {K: "res", E: 3}, {K: "co", G: 4}, {K: "res", E: 4}},
 			PauseAt: 4, PauseMs: pause}
 		run(c, "id_caches_across_a_pause")
+	}
+	// 2d. a user database with alias accounts
+	if !stop() {
+		cl, note, pair := c15AliasDB(ctx)
+		if note != "" {
+			res.Note("alias-database block NOT explored: %s", note)
+		} else {
+			res.Hist("alias_database")
+		}
+		if cl != "" {
+			res.Violate(common.Violation{Kind: "monitor", Clause: cl, Input: map[string]interface{}{"kind": "alias-database", "note": "re-run ./check C15 quick: the block is deterministic"}, Impl: pair[1], Model: pair[0]})
+		}
 	}
 	// 3. random histories
 	for i := 0; i < ctx.N(1500, 60000) && !stop(); i++ {
